@@ -165,6 +165,20 @@ def run(ctx):
                     ctx.violation("input", dict(expression=txt, position=pn, style=style, sql=mk(txt), subtree=short(got, 500), reference_sql=ref[1], reference_subtree=short(ref[0], 500),
                                                 requires="the same subtree in every position and under redundant parentheses"))
                     break
+    # NOT over each predicate that the grammar's own operator list puts on a tighter level: "not n OP k" and "not (n OP k)" are one expression
+    not_entry = min([sp["entry"] for sp in T["spell"] if T["entries"][sp["entry"]]["kind"] == "pre" and sp["words"] == ["not"]] or [10**6])
+    tighter = [" ".join(sp["words"]) for sp in T["spell"] if T["entries"][sp["entry"]]["kind"] == "bin" and sp["entry"] < not_entry and not sp["words"][0].startswith("#")]
+    preds = ["n %s k" % op for op in tighter] + ["n between m1 and k", "n not between m1 and k", "n in (m1, k)", "n not in (m1, k)", "n in (select k from u)", "n is null", "n is not null"]
+    for pred in preds:
+        bare, wrapped = "not %s" % pred, "not (%s)" % pred
+        stb, vb = impl.outcome(impl.M.parse, "select " + bare)
+        stw, vw = impl.outcome(impl.M.parse, "select " + wrapped)
+        if stb != "ok" or stw != "ok":
+            continue
+        ctx.count(1, ("not-over-predicate", bare))
+        if canon(vb) != canon(vw):
+            ctx.violation("input", dict(expression=bare, sql="select " + bare, subtree=short(vb["select"]["value"], 500), reference_sql="select " + wrapped, reference_subtree=short(vw["select"]["value"], 500),
+                                        requires="the same subtree under redundant parentheses: NOT is listed below this predicate's operator, so the parentheses do not change the grouping"))
     rr = ctx.rng("c10b")
     if not ctx.thorough:
         exprs = [e for i, e in enumerate(exprs) if i % 2 == ctx.seed % 2] + exprs[:4]
